@@ -127,6 +127,8 @@ def measure(case):
                 o, t = fp.parse(P, fam(case["fam"], n))
             except Stop:
                 o = {"res": "cap"}
+            if cnt[0] > CAP:
+                o = {"res": "cap"}      # fp.parse reports the Stop as an escape
         finally:
             U.Base.__new__ = orig
         out.append({"n": n, "c": cnt[0], "res": o["res"]})
